@@ -180,8 +180,13 @@ class Built:
         built = self
         bases = tuple(self.classes[b] for b in c['bases'])
         if c['kind'] == 'enum':
-            cls = enum.Enum(name, {m: i + 1 for i, m in
-                                   enumerate(c['members'])})
+            if c.get('strmixin'):
+                # class X(str, enum.Enum) with values unlike the names
+                cls = enum.Enum(name, {m: 'value-of-' + m
+                                       for m in c['members']}, type=str)
+            else:
+                cls = enum.Enum(name, {m: i + 1 for i, m in
+                                       enumerate(c['members'])})
             cls.__module__ = __name__
             self._hooks(cls, c)
             return cls
@@ -294,6 +299,9 @@ class Built:
         cls.__module__ = __name__
         cls.__name__ = cls.__qualname__ = c.get('pyname', name)
         cls._verif_params = names
+        if c.get('hasydef'):
+            cls._yatiml_defaults = {n: self.pyvalue(v)
+                                    for n, v in c['ydefaults']}
         if c['abstract'] and bases:
             import abc
             cls.__abstractmethods__ = frozenset({'_abstract_marker'})
